@@ -833,7 +833,15 @@ def find_distributed_partition(
 
     # FIXME: This gathers up materialized_arrays recursively, leading to
     # result sizes potentially quadratic in the number of materialized arrays.
-    mso_array_dep_mapper = SubsetDependencyMapper(frozenset(mso_arrays))
+    class _DataFlowSubsetDependencyMapper(SubsetDependencyMapper):
+        # In a data flow sense, a send-ref holder depends on the data passed
+        # through it, not on the data being sent.
+        def map_distributed_send_ref_holder(
+                self, expr: DistributedSendRefHolder) -> frozenset[Array]:
+            return self.combine(
+                frozenset([expr]), self.rec(expr.passthrough_data))
+
+    mso_array_dep_mapper = _DataFlowSubsetDependencyMapper(frozenset(mso_arrays))
 
     mso_ary_to_first_dep_send_part_id: dict[Array, int] = \
         dict.fromkeys(mso_arrays, nparts)
@@ -844,7 +852,8 @@ def find_distributed_partition(
                 comm_id_to_part_id[send_id])
 
     if __debug__:
-        recvd_array_dep_mapper = SubsetDependencyMapper(frozenset(received_arrays))
+        recvd_array_dep_mapper = _DataFlowSubsetDependencyMapper(
+            frozenset(received_arrays))
 
         mso_ary_to_last_dep_recv_part_id: dict[Array, int] = {
                 ary: max(
